@@ -112,6 +112,9 @@ func (r ToManyRelationshipResolver[T]) AddRelationshipMembers(ctx context.Contex
 	if ids, err := r.AddMembers(ctx, resource, members); err != nil {
 		return types.Relationship{}, err
 	} else {
+		if ids == nil {
+			ids = []types.ResourceId{}
+		}
 		var data any = ids
 		return types.Relationship{Data: &data}, nil
 	}
@@ -125,6 +128,9 @@ func (r ToManyRelationshipResolver[T]) RemoveRelationshipMembers(ctx context.Con
 	if ids, err := r.RemoveMembers(ctx, resource, members); err != nil {
 		return types.Relationship{}, err
 	} else {
+		if ids == nil {
+			ids = []types.ResourceId{}
+		}
 		var data any = ids
 		return types.Relationship{Data: &data}, nil
 	}
